@@ -134,7 +134,9 @@ def exports_for(ctx):
     add("types-fieldx", start="Type", cx="fieldx", maxtok=4, maxdmg=1, dkinds=("void",))
     # "+" fields naming the struct itself or a struct declared later, through up to two array levels (the order of the C
     # struct definitions and the cycle check both come from one topological sort)
-    add("types-fieldfwd", start="Type", cx="fieldfwd", maxtok=9, limit=None if th else 400)
+    add("types-fieldfwd", start="Type", cx="fieldfwd", maxtok=5 if th else 4)
+    add("stypes-fieldfwd", start="SType", cx="fieldfwd", maxtok=13 if th else 9)
+    add("stypes-fieldq", start="SType", cx="fieldq", maxtok=9 if th else 5)
     # statements inside the second of two sequential loops that share a label
     add("stmt-inloop2", start="Stmt", cx="inloop2", maxtok=4 if th else 3)
     add("consts", start="ConstVal", cx="const", maxtok=6 if th else 3, maxdmg=1, dkinds=("void", "drop", "dup", "swap"))
